@@ -106,6 +106,17 @@ func handMutate(g *model.Gen, rr dns.RR) []string {
 	if o, ok := rr.(*dns.OPT); ok && len(o.Option) > 0 && g.R.IntN(4) > 0 {
 		v = reflect.ValueOf(o.Option[g.R.IntN(len(o.Option))])
 	}
+	// SVCB/HTTPS: one of the parameters (ipv4hint/ipv6hint address lists, alpn ids, mandatory keys, ...)
+	var sv *dns.SVCB
+	switch x := rr.(type) {
+	case *dns.SVCB:
+		sv = x
+	case *dns.HTTPS:
+		sv = &x.SVCB
+	}
+	if sv != nil && len(sv.Value) > 0 && g.R.IntN(3) > 0 {
+		v = reflect.ValueOf(sv.Value[g.R.IntN(len(sv.Value))])
+	}
 	if v.Kind() != reflect.Ptr || v.Elem().Kind() != reflect.Struct {
 		return nil
 	}
@@ -192,6 +203,24 @@ func handMutateStruct(g *model.Gen, sv reflect.Value) []string {
 				x.Network.IP = net.IP(g.Bytes(n))
 				x.Network.Mask = net.IPMask(g.Bytes(n)) // not a CIDR mask: wildcard masks, holes
 				what = "apl-mask"
+			case reflect.TypeOf([]net.IP{}):
+				// address lists (SVCB hints): the 4-octet form, the 16-octet form of an IPv4 address (what
+				// net.ParseIP and net.IPv4 return), plain IPv6
+				v6 := strings.Contains(sv.Type().Name(), "IPv6")
+				var ips []net.IP
+				for x := 1 + r.IntN(3); x > 0; x-- {
+					b := g.Bytes(16)
+					switch {
+					case v6 && r.IntN(4) > 0:
+						ips = append(ips, net.IP(b))
+					case r.IntN(2) == 0:
+						ips = append(ips, net.IPv4(b[0], b[1], b[2], b[3]))
+					default:
+						ips = append(ips, net.IP(b[:4]))
+					}
+				}
+				f.Set(reflect.ValueOf(ips))
+				what = "ip-list"
 			case reflect.TypeOf([]string{}):
 				var ss []string
 				for x := r.IntN(4); x > 0; x-- {
